@@ -17,7 +17,7 @@ import (
 func init() {
 	register(&Prop{
 		ID:          "C10",
-		Explanation: "PARTIAL claim — decides the structural agreements a save/load round trip needs, not the round trip as behaviour: (1) each store encodes and decodes with the same compression flag constant and the same cipher source, the persistence layer saves, loads and clears under the same ticket field, and EncodeSessionState/DecodeSessionState mirror each other (marshal -> [lz4 iff flag] -> Encrypt versus Decrypt -> [lz4 iff flag] -> Unmarshal into the returned object); (2) every field of SessionState other than the two reviewed runtime helpers is serialised under a unique msgpack key; (3) the splitter and the loader derive part names through the same function with consecutive indices from 0, the loader prefers the unsplit cookie and otherwise joins the parts in index order onto a copy of part 0 named like the whole, and the splitter's chunks are consecutive slices cut at one point; (4) because the loader consults names a save of another size does not overwrite, the cookie store's Save reads the presented cookie jar and expires every presented session cookie (quoted name, optional _N suffix) it did not just write; (5) the split threshold constant is at most 4096 and every emitted chunk, and the unsplit cookie, was measured against it with len(cookie.String()); (6) Clear sweeps every presented session cookie and the ticket store's Clear deletes the stored session (shared with C11.R2/R3); (7) the ticket's cookie encoding and its two decoders agree on version tag, part count, part order and base64 alphabet; (8) the codec's compression plumbing uses no length-limited reader or copy in either direction and hands out compressed bytes only after the writer closed without error.",
+		Explanation: "PARTIAL claim — decides the structural agreements a save/load round trip needs, not the round trip as behaviour: (1) each store encodes and decodes with the same compression flag constant and the same cipher source, the persistence layer saves, loads and clears under the same ticket field, and EncodeSessionState/DecodeSessionState mirror each other (marshal -> [lz4 iff flag] -> Encrypt versus Decrypt -> [lz4 iff flag] -> Unmarshal into the returned object); (2) every field of SessionState other than the two reviewed runtime helpers is serialised under a unique msgpack key; (3) the splitter and the loader derive part names through the same function with consecutive indices from 0, the loader prefers the unsplit cookie and otherwise joins the parts in index order onto a copy of part 0 named like the whole, and the splitter's chunks are consecutive slices cut at one point; (4) because the loader consults names a save of another size does not overwrite, the cookie store's Save reads the presented cookie jar and expires every presented session cookie (quoted name, optional _N suffix) it did not just write; (5) the split threshold constant is at most 4096 and every emitted chunk, and the unsplit cookie, was measured against it with len(cookie.String()); (6) Clear sweeps every presented session cookie and the ticket store's Clear deletes the stored session (shared with C11.R2/R3); (7) the ticket's cookie encoding and its two decoders agree on version tag, part count, part order and base64 alphabet; (8) the codec's compression plumbing uses no length-limited reader or copy in either direction and hands out compressed bytes only after the writer closed without error; (9) no function on the cookie store's load path (including Validate and the ciphers) tests a length against an upper bound.",
 		NotDecided:  "the round trip itself over all sizes and field contents (msgpack/lz4/AES value semantics), byte arithmetic at the split boundary, truncated part names for cookie names longer than 250 bytes, browser jar semantics (path/domain scoping, eviction), Redis behaviour.",
 		Run:         runC10,
 	})
@@ -31,6 +31,7 @@ func runC10(c *Ctx) {
 	r.Rule("R4-stale-parts-expired", "the cookie store's Save reads the presented jar, unconditionally on every successful save, and expires every presented session cookie it did not write", 5)
 	r.Rule("R5-size-bound", "split threshold <= 4096; every emitted chunk and the unsplit cookie were measured against it", 3)
 	r.Rule("R6-clear", "Clear sweeps all presented session cookies; Manager.Clear deletes the stored session (shared with C11.R2/R3)", 8)
+	r.Rule("R9-no-size-cap-on-load", "no function between the cookie jar and the decoded session rejects by an upper length bound", 10)
 	r.Rule("R8-codec-streams-unbounded", "the session codec's stream plumbing uses no length-limited reader/copy and returns compressed data only after a successful Close", 5)
 	r.Rule("R7-ticket-encoding-agreement", "encodeTicket and decodeTicketID/decodeTicketSecret agree on tag, part count, order and alphabet", 3)
 
@@ -43,6 +44,7 @@ func runC10(c *Ctx) {
 	runManagerClearRule(c, "R6-clear")
 	runC10R7(c, "R7-ticket-encoding-agreement")
 	runC10R8(c, "R8-codec-streams-unbounded")
+	runC10R9(c, "R9-no-size-cap-on-load")
 }
 
 // ---- R1 -------------------------------------------------------------------------------------------
@@ -980,4 +982,74 @@ func callChain(c *Ctx, src, dst *ssa.Function, depth int) [][2]*ssa.Function {
 		queue = next
 	}
 	return nil
+}
+
+// ---- R9 -------------------------------------------------------------------------------------------
+
+// runC10R9: nothing on the load path caps the size of what is loaded. The loader hands Validate a
+// synthetic cookie that is the concatenation of all parts, so any "larger than K" rejection between
+// the jar and the decoded session turns every session beyond K into "nothing loads", while Save keeps
+// emitting it. Upper-bound tests are recognised by shape: len(x) > K / len(x) >= K (or mirrored) with a
+// constant K >= 256 in a function statically reachable from the cookie store's Load.
+func runC10R9(c *Ctx, rule string) {
+	load := c.Fn(rule, "(*pkg/sessions/cookie.SessionStore).Load")
+	if load == nil {
+		return
+	}
+	n := 0
+	var fns []*ssa.Function
+	for fn := range c.staticReach(load, 4) {
+		fns = append(fns, fn)
+	}
+	// Cipher implementations are reached through an interface
+	if decM := c.P.Method("pkg/encryption.Cipher.Decrypt"); decM != nil {
+		for _, impl := range c.P.Implementations(decM) {
+			if c.P.InModule(impl) {
+				fns = append(fns, impl)
+			}
+		}
+	}
+	sort.Slice(fns, func(i, j int) bool { return fns[i].String() < fns[j].String() })
+	seen := map[*ssa.Function]bool{}
+	for _, fn := range fns {
+		if seen[fn] || prog.Short(prog.FnPkg(fn).Path()) == "pkg/logger" {
+			continue
+		}
+		seen[fn] = true
+		n++
+		capped := false
+		for _, b := range fn.Blocks {
+			for _, in := range b.Instrs {
+				bo, ok := in.(*ssa.BinOp)
+				if !ok {
+					continue
+				}
+				var lenSide, constSide ssa.Value
+				switch bo.Op {
+				case token.GTR, token.GEQ:
+					lenSide, constSide = bo.X, bo.Y
+				case token.LSS, token.LEQ:
+					lenSide, constSide = bo.Y, bo.X
+				default:
+					continue
+				}
+				k, isConst := ConstInt(constSide)
+				lc, isCall := lenSide.(*ssa.Call)
+				if !isConst || !isCall || k < 256 {
+					continue
+				}
+				if bi, ok := lc.Call.Value.(*ssa.Builtin); !ok || bi.Name() != "len" {
+					continue
+				}
+				capped = true
+				c.R.Bad(rule, "size-cap|"+fnKey(fn), c.pos(in), sprintf("%s tests a length against the upper bound %d on the session load path: sessions beyond it are saved but can never be loaded", fnKey(fn), k), nil, nil)
+			}
+		}
+		if !capped {
+			c.R.OK(rule, "size-cap|"+fnKey(fn), c.P.Pos(fn.Pos()), "no upper-bound length test")
+		}
+	}
+	if n == 0 {
+		c.R.Unknown(rule, "size-cap|none", "-", "no function on the load path")
+	}
 }
